@@ -320,9 +320,29 @@ def r3(R):
         if matched is not True or node.frame.parent is not None:
             return st
         for op in F.ops(node):
+            if op.kind == 'call' and path_is(
+                    op.path, ('self', '_file', 'seek')) and lab != 'e':
+                a = op.ast.args
+                if phase <= 0:
+                    if len(a) == 1 and dotted(a[0]) and F.canon(
+                            a[0], node.frame) == ('self', '_pos'):
+                        phase = 0
+                    else:
+                        phase = -1          # positioned somewhere else
+                else:
+                    return Violation('tpc_vote moves the data-file position '
+                                     'in the middle of writing the '
+                                     'transaction')
             c = classify(op, node.frame)
             if c is None:
                 continue
+            if phase < 0:
+                return Violation(
+                    'tpc_vote writes the transaction without having '
+                    'positioned the data file at the committed end '
+                    '(self._pos): the record lands wherever the last read '
+                    'left the file position, over committed data or beyond '
+                    'a gap')
             if lab == 'e':
                 continue
             if c == 'otherwrite' or phase >= 4 or ORDER[phase] != c:
@@ -346,7 +366,7 @@ def r3(R):
                              'flush' % phase)
         return st
 
-    vs, stats = explore(g, (None, 0), at=at, edge=edge)
+    vs, stats = explore(g, (None, -2), at=at, edge=edge)
     R.count(stats)
     for v in vs:
         R.violation(v.node, v.message, g, v.path,
